@@ -799,3 +799,100 @@ func stripConst(e ast.Expr) ast.Expr {
 	}
 	return e
 }
+
+// E2PenTracking: printers that carry the pen position across records update it in every case.
+func E2PenTracking(c *core.Ctx, r *core.Report, funcs []string) {
+	r.Rule("E2.pen", "a decoder loop that carries the pen position (a pair of float variables declared before the loop and assigned from the end point A.d[i+L-3], A.d[i+L-2] in some case) assigns it from the end point of the record in *every* case, for every command kind of that case: relative/shorthand output (H, V, dropped zero-length lines) is computed against this position")
+	p := c.MustPkg("")
+	info := p.TypesInfo
+	total := 0
+	for _, fname := range funcs {
+		fd := core.MustFuncDecl(p, fname)
+		r.Func("canvas." + fname)
+		// collect pen assignments per context
+		type penAssign struct {
+			x, y types.Object
+			k    int
+			set  []string
+		}
+		var assigns []penAssign
+		// map IndexExpr -> (k, set) from decoder facts
+		type fact struct {
+			k   int
+			set []string
+		}
+		facts := map[*ast.IndexExpr]fact{}
+		decoderSites(p, fd, func() {}, func(s decoderSite) { facts[s.ie] = fact{s.k, s.set} })
+		ast.Inspect(fd.Body, func(n ast.Node) bool {
+			as, ok := n.(*ast.AssignStmt)
+			if !ok || as.Tok != token.ASSIGN || len(as.Lhs) != 2 || len(as.Rhs) != 2 {
+				return true
+			}
+			xi, okx := as.Lhs[0].(*ast.Ident)
+			yi, oky := as.Lhs[1].(*ast.Ident)
+			ix, okix := core.Unparen(as.Rhs[0]).(*ast.IndexExpr)
+			iy, okiy := core.Unparen(as.Rhs[1]).(*ast.IndexExpr)
+			if !okx || !oky || !okix || !okiy {
+				return true
+			}
+			fx, ok1 := facts[ix]
+			fy, ok2 := facts[iy]
+			if !ok1 || !ok2 || fy.k != fx.k+1 {
+				return true
+			}
+			assigns = append(assigns, penAssign{core.ObjOf(info, xi), core.ObjOf(info, yi), fx.k, fx.set})
+			return true
+		})
+		if len(assigns) == 0 {
+			r.Fail("E2.pen", "canvas."+fname+"|pen variables", c.Pos(fd.Pos()), "no pen position (x, y = A.d[i+k], A.d[i+k+1]) is tracked in this printer")
+			continue
+		}
+		px, py := assigns[0].x, assigns[0].y
+		// required: for every command kind, an assignment with k = L-3 in a context containing that kind
+		for _, cmd := range []string{"MoveToCmd", "LineToCmd", "QuadToCmd", "CubeToCmd", "ArcToCmd", "CloseCmd"} {
+			// is the command handled by the function's switch at all?
+			handled := false
+			for _, cc := range cmdSwitchClauses(p, fd) {
+				for _, k := range core.CaseConsts(info, cc) {
+					if k == cmd {
+						handled = true
+						// a case that panics for this command needs no pen update
+						for _, s := range cc.Body {
+							if es, ok := s.(*ast.ExprStmt); ok {
+								if call, ok := es.X.(*ast.CallExpr); ok {
+									if id, ok := call.Fun.(*ast.Ident); ok && id.Name == "panic" {
+										handled = false
+									}
+								}
+							}
+						}
+					}
+				}
+			}
+			if !handled {
+				continue
+			}
+			total++
+			key := fmt.Sprintf("canvas.%s|pen after %s", fname, cmd)
+			want := recordLen[cmd] - 3
+			ok := false
+			for _, a := range assigns {
+				if a.x != px || a.y != py || a.k != want {
+					continue
+				}
+				for _, s := range a.set {
+					if s == cmd {
+						ok = true
+					}
+				}
+			}
+			if ok {
+				r.OK("E2.pen", key, c.Pos(fd.Pos()), fmt.Sprintf("x, y = d[i+%d], d[i+%d]", want, want+1))
+			} else {
+				r.Fail("E2.pen", key, c.Pos(fd.Pos()), fmt.Sprintf("the pen position is not updated to the end point of a %s record (d[i+%d], d[i+%d]): the command that follows is minified/emitted relative to a stale position", cmd, want, want+1))
+			}
+		}
+	}
+	r.Count("E2.pen-cases", total)
+	r.Floor("E2.pen-cases", 12)
+}
